@@ -27,7 +27,26 @@ Theorem C15_user_rules : forall c es e, file_users c = es ++ [e] ->
   Some (mkCred (eu_hash e)
                (match c_read (eu_acl e) with Some p => PPrefix p | None => default_pat (c_read (default_acl c)) end)
                (match c_write (eu_acl e) with Some p => PPrefix p | None => default_pat (c_write (default_acl c)) end)).
-Proof. intros c es e H. unfold build. rewrite H. apply load_enh_last. Qed.
+Proof.
+  intros c es e H.
+  assert (E : lookup (eu_name e) (build_users c) = Some (mkCred (eu_hash e)
+               (match c_read (eu_acl e) with Some p => PPrefix p | None => default_pat (c_read (default_acl c)) end)
+               (match c_write (eu_acl e) with Some p => PPrefix p | None => default_pat (c_write (default_acl c)) end)))
+    by (unfold build_users; rewrite H; apply load_enh_last).
+  unfold build. destruct (build_users c) as [|x m]; [discriminate E|exact E].
+Qed.
+
+(* a configuration without any user: "guest" may log in with the password "guest" and gets the default rules *)
+Theorem C15_guest_fallback : forall c, users c = [] -> enh_users c = [] -> file_users c = [] ->
+  password (build c) guest_name guest_hash = Allow /\
+  forall topic w, acl (build c) guest_name topic w =
+    pmatch (default_pat (if w then c_write (default_acl c) else c_read (default_acl c))) topic.
+Proof.
+  intros c H1 H2 H3. unfold build, build_users. rewrite H1, H2, H3. cbn [fold_left]. split; [vm_compute; reflexivity|].
+  intros topic w. unfold acl. cbn [lookup]. replace (str_eqb guest_name guest_name) with true by (vm_compute; reflexivity).
+  destruct w; reflexivity.
+Qed.
+Print Assumptions C15_guest_fallback.
 Print Assumptions C15_user_rules.
 
 (* for EVERY sequence of publishes of one connection, with or without topic, with any aliases: whatever is
